@@ -33,8 +33,7 @@ Definition IsIface (t : ty) : Prop := underlying t = TAny.
 Inductive Named : ty -> Prop :=
 | Nm_basic : forall b, Named (TBasic b)
 | Nm_named : forall n b, Named (TNamed n b)
-| Nm_def : forall n u, Named (TDef n u)
-| Nm_any : Named TAny.
+| Nm_def : forall n u, Named (TDef n u).
 
 (* "The predeclared identifier nil [...] a pointer, function, slice, map,
    channel, or interface type" *)
